@@ -1,1 +1,3 @@
+pub mod chanrun;
 pub mod containers;
+pub mod uni;
